@@ -181,6 +181,67 @@ call it translates exactly as before):
   call (a list nothing else names) the update is a rebinding of `x`, and `ys.append(x)` may only be the last statement of the
   body; when it iterates a local list variable `xs` (nothing else in the body touching `xs`), `x` is `xs[idx']` and every update
   is written back to `xs` at once (`list_set`).
+
+Sixth extension (used by `translator/table_gen.py` and `translator/thl_gen.py`; everything is switched on by `Unit.use_tables`, a
+unit that does not call it translates exactly as before):
+
+* type `tuple T` (a Python tuple used as an immutable sequence): a Coq list; `()`, `(e,)`, `t + (e,)`, `t[i]` (also negative,
+  `zget`), `t[k:]` (`skipn`), `t[:-1]` (`removelast`), `len(t)`, truthiness, `for x in t` / `for x in t[:-1]`; a tuple display where
+  a tuple is expected (an argument, a field); `Unit.marker(C)`: `@dataclass class C(B)` without attributes -> a one-value type,
+  `C()` its value, `isinstance(x, D)` on a variable declared of such a class is decided by the declared type (the branch not taken
+  is not translated; what follows a taken branch that ends in `return` / `raise` is unreachable and dropped);
+* `Unit.cells(..)`: the type of what a nested table of `defaultdict`s holds -- `None`, an entry (an object of a translated class),
+  or `defaultdict(lambda: f(x))` (f the declared factory function, x an immutable local: kept as the value of x and the items in
+  insertion order; reading a missing key calls the factory and stores its value).  A variable declared `cursor` is a REFERENCE into
+  that tree-shaped structure (no two paths reach the same object): the list of the keys followed from the root, which is the
+  variable the reference is first bound to (`c = <root>`; `c = c[k]` follows k, and like every read `c[k]` may give the defaultdict
+  the key); `c[k]`, `c[k] is None`, `c[k] = v`, `c[k].m(args)` (the entry is read, updated, stored back), `return c` (the cell; a
+  dictionary where an optional entry is declared: `AttributeError`, which is what the caller's method call raises in Python);
+* `ClassSpec.views`: an attribute that refers to an object living elsewhere (a proxy's `parent`).  `self.f.g` is the variable
+  `self'f'g`, the record of the viewed object is rebuilt from them; a view object is a temporary: `V(obj, ..)` (obj: `self`, an
+  attribute of self that is itself such a reference, or a variable) only as the base of a chain `V(..)[k]..`, `V(..).m(..)`, of a
+  store `V(..)[k] = v`, or in a `return`.  A chain `x[k1][k2].m(args)` / `x[k1][k2] = v` (x a variable holding an object whose
+  `__getitem__` / `__setitem__` are translated; a step may return another view) is evaluated step by step, each step taking the
+  view the previous one returned; when the chain is done the object is read back from the last view (`<V>_<f>` / `<Union>_parent`)
+  into the variable / the attributes it was borrowed from.  Sound because a view is only ever built from the current state of the
+  object it views, immediately before it is used or returned, and nothing else touches the object while the chain runs (an argument
+  of a step may not mention the borrowed variable).  `Unit.union(name, classes)`: what a method returning objects of several
+  classes returns (an `Inductive`); `Unit.union_methods` emits the dispatch -- a class without the method answers `AttributeError`
+  (`TypeError` for subscripts); `return self` where a union is expected;
+* `Unit.import_unit(other, alias, lift, ..)`: the enums, dataclasses, classes (with their translated methods), trees, enum-keyed
+  dictionaries, marker classes, cell type and unions of another generated file become declarations of this one, emitted qualified
+  and with their type arguments; a method call is `lift (@alias.gen_m <type args> <section variables the method uses> obj args)`
+  (`Unit.use_tables(section_vars=..)` makes a unit track which explicit Section variables each generated function takes);
+  `Unit.method` on such a class adds a method in this file; `Unit.record_class`: a frozen dataclass of another module whose
+  objects this file builds and keeps as a Record of its own, its methods being functions the driver defines;
+* more on objects: a parameter with an enum-member default (a call that omits it passes the member), dataclass fields with the
+  default `None`, `x = obj.m(..)` for a method declared `fresh` (it returns an object it builds: checked) or when x is afterwards
+  only read (tested against None, receiver of `pure` methods), `if x is None: <return>` on an optional variable (a `match`; x is the
+  value afterwards), `x is None` / `is not None` as expressions, `f(*xs, y, *e.m(..))` for a `*args` parameter (`*e` of an object
+  with a translated generator `__iter__`: the list of what it yields; `*map(lambda x: e, xs)`: e for each item in order, the first
+  error ends it), `any(c for x in xs)` (`existsb`; c cannot raise), `raise E(f"..")` with an f-string over names and `len(..)`;
+* generators (`FunSpec.generator`): `yield e` appends to a hidden accumulator `acc'`, `yield from e`, bare `return`; the function
+  is the list of what it yields -- valid where, as in the translated callers, the generator is consumed at once (`*gen`,
+  `product(gen, gen)`, `map(.., gen)` unpacked into a call) so that laziness cannot interleave it with anything that could observe
+  or change what it reads;
+* local function definitions `def f(a, b): return e` (e cannot raise; captured variables immutable and assigned once): a Coq `fun`
+  bound by `let`, passed where a parameter of function type is expected; `Unit.namedtuple`: `class C(NamedTuple)` -> a Record and
+  its equality; `Unit.attrs_of`: attributes of opaque values (`species_lca.tree`); `Unit.coercion(src, dst, fmt)`: a value of the
+  declared type src where dst is expected (a node where its identifier is meant, a value where a table key is meant);
+  `Unit.same_type`: two names of one type (the element type of an instance and the tag class); `unwrap_none`: `x.f` of an optional
+  field where a value is needed is the error `NoneValue` when it is `None` (the translation does not follow what Python would do
+  with the `None`; the proofs show it does not arise);
+* binary trees: `for x in t.traverse()` / `traverse("postorder")` / `traverse("levelorder")` with t any expression of a declared
+  tree type is a loop over the list `<T>_levelorder t` / `<T>_postorder t` (`Unit.traversal_defs`: ete3's orders; the default is
+  level order: by increasing depth, left to right); `types["x@for"]`: the type of the variable x bound by a `for` when another
+  variable of the same name (never live at the same time) has another type;
+* module-level functions: `ret="unit"` (nothing returned), `mutates` naming parameters that hold OBJECTS the function updates
+  (chains on them, calls passing them on): the generated function returns them with its result and every call -- as a statement, as
+  a right-hand side, or inside an expression, where calls are hoisted in evaluation order -- binds the variables passed again;
+  `rec_on` a binary-tree parameter with recursive calls on variables bound by unpacking `.children`, also inside a `for` (then
+  emitted in place as a local `fix`); `product(a, b)` as a value (`list_prod`), `for a, b in xs` over a list of pairs;
+  dictionary displays `{k: v, **d1, **d2}` on dictionaries keyed by nodes (the stores in order: `d2 ++ d1 ++ [(k, v)]`, newest
+  first); a set read through views is iterated in the order `Unit.set_orders[<instance>]` (a Section parameter) decides.
 """
 from __future__ import annotations
 
